@@ -6,11 +6,16 @@
   every length, every construction value, every stream, every position incl. warm-up):
     * Highest returns (the bit pattern of) an element of the last `n` values that is numerically
       ≥ all of them; Lowest mirrored.  In particular the bit-equality rescan trigger is sound.
-  HighestLowestDelta, HighestIndex, LowestIndex and SMM (+ the median inside MedianAbsDev) are
-  modelled and at present compared with the from-scratch selections of `YataModel/Spec.lean`
-  by the correspondence run only (exact comparison, small alphabets with ±0).
+    * HighestIndex returns the age `i` of the NEWEST maximal element of the last `n` values: the element at
+      age `i` is numerically ≥ all of them and everything newer is strictly smaller (`NewestMaxAt`, which
+      determines `i` uniquely — `C04_newest_max_unique`); LowestIndex mirrored. Ties: the newest wins, both on
+      the fast path (`>=`) and in the full rescan (strict `>` over the window newest-first).
+  HighestLowestDelta and SMM (+ the median inside MedianAbsDev) are modelled and at present compared with the
+  from-scratch selections of `YataModel/Spec.lean` by the correspondence run only (exact comparison, small
+  alphabets with ±0).
 -/
 import YataProofs.Selection
+import YataProofs.SelectionIndex
 import YataProofs.Numeric.Common
 import Mathlib.Algebra.Order.Ring.Rat
 namespace Yata.C04
@@ -55,6 +60,51 @@ theorem C04_lowest {n : Nat} (v : β) (hn0 : 0 < n) (hn : n ≤ P - 1) (xs : Lis
       xs [] s0 ⟨hinv0, by rw [htl0, lastN_history_nil], by simp [history]⟩
   exact ⟨s0, os, s', hnew, hr, hlen, fun i hi => by simpa using houts i hi⟩
 
+theorem C04_highest_index {n : Nat} (v : β) (hn0 : 0 < n) (hn : n ≤ P - 1) (xs : List β) :
+    ∃ s0 outs s', HighestIndex.new P n v = .ok s0 ∧ runM (HighestIndex.next P) s0 xs = .ok (outs, s') ∧
+      outs.length = xs.length ∧
+      ∀ i (hi : i < outs.length), ∃ m, NewestMaxAt outs[i] m (lastN n (history n v (xs.take (i + 1)))).reverse := by
+  obtain ⟨s0, hnew, hinv0, htl0⟩ := HighestIndex.new_spec (P := P) v hn0 hn
+  obtain ⟨os, s', hr, _, hlen, houts⟩ :=
+    runM_invariant (HighestIndex.next P)
+      (fun h s => HighestIndex.Inv P s ∧ Window.toList s.window = lastN n (history n v h) ∧ n ≤ (history n v h).length)
+      (fun h o => ∃ m, NewestMaxAt o m (lastN n (history n v h)).reverse)
+      (by
+        intro h s x ⟨hinv, htl, hl⟩
+        obtain ⟨o, s1, hnx, hinv1, ho, htl1⟩ := HighestIndex.next_spec x hinv
+        have e : Window.toList s1.window = lastN n (history n v (h ++ [x])) := by
+          rw [htl1, htl, history_snoc, lastN_snoc x hn0 hl]
+        refine ⟨o, s1, hnx, ⟨hinv1, e, by rw [history_snoc]; simp; omega⟩, s1.value, ?_⟩
+        rw [ho, ← e]; exact hinv1.at_)
+      xs [] s0 ⟨hinv0, by rw [htl0, lastN_history_nil], by simp [history]⟩
+  exact ⟨s0, os, s', hnew, hr, hlen, fun i hi => by simpa using houts i hi⟩
+
+theorem C04_lowest_index {n : Nat} (v : β) (hn0 : 0 < n) (hn : n ≤ P - 1) (xs : List β) :
+    ∃ s0 outs s', LowestIndex.new P n v = .ok s0 ∧ runM (LowestIndex.next P) s0 xs = .ok (outs, s') ∧
+      outs.length = xs.length ∧
+      ∀ i (hi : i < outs.length), ∃ m, NewestMinAt outs[i] m (lastN n (history n v (xs.take (i + 1)))).reverse := by
+  obtain ⟨s0, hnew, hinv0, htl0⟩ := LowestIndex.new_spec (P := P) v hn0 hn
+  obtain ⟨os, s', hr, _, hlen, houts⟩ :=
+    runM_invariant (LowestIndex.next P)
+      (fun h s => LowestIndex.Inv P s ∧ Window.toList s.window = lastN n (history n v h) ∧ n ≤ (history n v h).length)
+      (fun h o => ∃ m, NewestMinAt o m (lastN n (history n v h)).reverse)
+      (by
+        intro h s x ⟨hinv, htl, hl⟩
+        obtain ⟨o, s1, hnx, hinv1, ho, htl1⟩ := LowestIndex.next_spec x hinv
+        have e : Window.toList s1.window = lastN n (history n v (h ++ [x])) := by
+          rw [htl1, htl, history_snoc, lastN_snoc x hn0 hl]
+        refine ⟨o, s1, hnx, ⟨hinv1, e, by rw [history_snoc]; simp; omega⟩, s1.value, ?_⟩
+        rw [ho, ← e]; exact hinv1.at_)
+      xs [] s0 ⟨hinv0, by rw [htl0, lastN_history_nil], by simp [history]⟩
+  exact ⟨s0, os, s', hnew, hr, hlen, fun i hi => by simpa using houts i hi⟩
+
+/-- "the newest maximal element" is a function of the window: two witnesses have the same age -/
+theorem C04_newest_max_unique {i i' : Nat} {m m' : β} {r : List β} (h : NewestMaxAt i m r) (h' : NewestMaxAt i' m' r) :
+    i = i' := h.unique h'
+
+theorem C04_newest_min_unique {i i' : Nat} {m m' : β} {r : List β} (h : NewestMinAt i m r) (h' : NewestMinAt i' m' r) :
+    i = i' := h.unique h'
+
 /-- zero length is rejected -/
 theorem C04_zero_length (v : β) :
     (∃ e, Highest.new P 0 v = .err e) ∧ (∃ e, Lowest.new P 0 v = .err e) :=
@@ -82,3 +132,7 @@ end Yata.C04
 #print axioms Yata.C04.C04_highest
 #print axioms Yata.C04.C04_lowest
 #print axioms Yata.C04.C04_zero_length
+#print axioms Yata.C04.C04_highest_index
+#print axioms Yata.C04.C04_lowest_index
+#print axioms Yata.C04.C04_newest_max_unique
+#print axioms Yata.C04.C04_newest_min_unique
